@@ -96,7 +96,8 @@ def run(check: Check) -> None:
     run_cases(check, cases, _case)
     # native leg (ground): what a symbolic cell cannot enter - hashed() (hashes the VALUES), sparse output, the narwhals materializer -
     # replayed on row maps and through a pickle round trip at one concrete point
-    native_formulas = ["hashed(A, levels=5)", "hashed(A, levels=3):a + b", "hashed(B, levels=4) + C(A):center(a)", "0 + hashed(A, levels=7):hashed(B, levels=2)"] + gen_conc[: (40 if thorough else 6)]
+    native_formulas = ["hashed(A, levels=5)", "hashed(A, levels=3):a + b", "hashed(B, levels=4) + C(A):center(a)", "0 + hashed(A, levels=7):hashed(B, levels=2)",
+                       "B*a", "B + a + B:a", "C(B):b + a + np.log(a + 1):B", "A:a + B:b:a"] + gen_conc[: (40 if thorough else 6)]
     for formula in native_formulas:
         for out, mat in (("pandas", None), ("sparse", None), ("numpy", "narwhals")):
             if mat and "hashed" in formula:
